@@ -1,8 +1,8 @@
 """Unit-local extraction plugin for tcp_close_routes.
 
 hook_begin for the two id-allocation block targets: a SOURCE SCAN of tcp_engine.hpp that keeps the clause "identifiers are strictly
-increasing, never reused" honest: the allocator `_nextSessionId` may be touched only by its declaration and by the two `_nextSessionId++`
-statements under contract, and `Session::id` may be assigned only from those two values (`s->id = sid;` in onListener, `s->id = cr.sid;`
+increasing, never reused" honest: the allocator `_nextSessionId` may be touched only by its declaration, by the two `_nextSessionId++`
+statements under contract and by writes in the prologue of start() (block target TcpEngine_start_prologue, clause ID3), and `Session::id` may be assigned only from those two values (`s->id = sid;` in onListener, `s->id = cr.sid;`
 in doConnect, where cr.sid is what connect() allocated). Anything else is an extraction break (exit 2): the contract could not vouch for it."""
 import os
 import re
@@ -20,9 +20,18 @@ def hook_begin(t, rw):
     uses = [m.start() for m in re.finditer(r'\b_nextSessionId\b', src)]
     incs = len(re.findall(r'\b_nextSessionId\s*\+\+', src))
     decl = len(re.findall(r'std::atomic<SessionId>\s+_nextSessionId\s*\{\s*1\s*\}\s*;', src))
-    if len(uses) != 3 or incs != 2 or decl != 1:
-        raise ExtractionBreak(f"id allocator: `_nextSessionId` is used {len(uses)} times ({incs} post-increments, {decl} declarations starting at 1); "
-                              f"the contract covers exactly the declaration and two post-increments")
+    # writes `_nextSessionId.store(e)` / `_nextSessionId = e;` inside the prologue of start() are under contract (block target TcpEngine_start_prologue,
+    # clause ID3: new >= old); every other use stays an extraction break
+    m0 = re.search(r'StartResult\s+start\s*\(\s*\)', src)
+    m1 = re.search(r'if\s*\(\s*!\s*initTls\s*\(\s*\)\s*\)', src[m0.end():]) if m0 else None
+    lo, hi = (m0.end(), m0.end() + m1.start()) if (m0 and m1) else (0, 0)
+    stores = [m.start() for m in re.finditer(r'\b_nextSessionId\s*(?:\.\s*store\s*\(|=[^=])', src)]
+    covered = [p for p in stores if lo <= p < hi]
+    unknown = len(uses) - 3 - len(covered)
+    if incs != 2 or decl != 1 or unknown != 0 or len(covered) != len(stores):
+        raise ExtractionBreak(f"id allocator: `_nextSessionId` is used {len(uses)} times ({incs} post-increments, {decl} declarations starting at 1, "
+                              f"{len(covered)} writes inside the start() prologue that are under contract, {len(stores) - len(covered)} writes elsewhere); "
+                              f"the contract covers the declaration, two post-increments and writes in the start() prologue")
     assigns = re.findall(r'(\w+)\s*->\s*id\s*=\s*([^;]+);', src)
     ok = sorted(v.strip() for r, v in assigns if v.strip() != 'lc.id')          # `l->id = lc.id;` is Listener::id (ListenerId space)
     if ok != ['cr.sid', 'sid']:
